@@ -294,6 +294,11 @@ pub struct FileVals {
     pub validation: Option<String>,
     pub verbose: Option<bool>,
     pub force: Option<bool>,
+    /// one further key of the entry carries a value of the wrong JSON type ("verbose": "true",
+    /// "force": 1, "typeMappings": {"A": 1}, "excludePatterns": "legacy"): the well-typed keys beside
+    /// it still beat the defaults, unless the whole run is refused with an error
+    #[serde(default)]
+    pub mistyped: Option<String>,
 }
 
 #[derive(Debug, Clone, Serialize, Deserialize)]
@@ -345,6 +350,21 @@ fn file_json(src: Source, f: &FileVals) -> String {
     }
     if let Some(p) = f.force {
         o.insert("force".into(), json!(p));
+    }
+    match f.mistyped.as_deref() {
+        Some("verbose") => {
+            o.insert("verbose".into(), json!("true"));
+        }
+        Some("force") => {
+            o.insert("force".into(), json!(1));
+        }
+        Some("typeMappings") => {
+            o.insert(k("typeMappings", "type_mappings"), json!({"A": 1}));
+        }
+        Some("excludePatterns") => {
+            o.insert(k("excludePatterns", "exclude_patterns"), json!("legacy"));
+        }
+        _ => {}
     }
     if tauri_style {
         json!({"productName":"demo","plugins":{"typegen": Value::Object(o)}}).to_string()
@@ -457,6 +477,7 @@ pub fn eval_prec(c: &PrecCase) -> (Vec<Violation>, u64, String) {
             .field("source", format!("{:?}", c.source))
             .field("invalid_in_file", if inval.is_empty() { "-".to_string() } else { inval.join("+") })
             .field("flags", format!("{:05b}{}", c.flags, if c.flag_defaults { " (default values)" } else { "" }))
+            .field("mistyped", c.file.mistyped.clone().unwrap_or("-".into()))
             .rank((c.flags.count_ones() + [c.file.project.is_some(), c.file.output.is_some(), c.file.validation.is_some(), c.file.verbose.is_some(), c.file.force.is_some()].iter().filter(|x| **x).count() as u32) as u64)
     };
     let mut vs = vec![];
@@ -475,6 +496,14 @@ pub fn eval_prec(c: &PrecCase) -> (Vec<Violation>, u64, String) {
             vs.push(mk("written-before-rejecting", format!("something was written although the settings are invalid: {:?}", changed)));
         }
         return (vs, runs, outcome);
+    }
+    if !r.success() && c.file.mistyped.is_some() && c.source != Source::NoFile {
+        // refusing a document with a mistyped value is fine - as long as nothing was written
+        if before != after {
+            let changed: Vec<&String> = after.keys().filter(|k| before.get(*k) != after.get(*k)).collect();
+            vs.push(mk("written-before-rejecting", format!("the run was refused ({}) but something was written: {:?}", r.status_string(), changed)));
+        }
+        return (vs, runs, format!("refused-mistyped:{}", r.status_string()));
     }
     if !r.success() {
         vs.push(mk("valid-settings-rejected", format!("exit {} stderr {}", r.status_string(), r.stderr.trim())));
@@ -500,12 +529,12 @@ pub fn eval_prec(c: &PrecCase) -> (Vec<Violation>, u64, String) {
         }
     }
     let verbose_seen = r.stdout.contains("Analyzing file") || r.stdout.contains("Parsing file");
-    if verbose_seen != eff.verbose {
+    if verbose_seen != eff.verbose && c.file.mistyped.as_deref() != Some("verbose") {
         vs.push(mk("verbose-precedence", format!("expected verbose={} but verbose output present={}", eff.verbose, verbose_seen)));
     }
     // force: run again with identical arguments on the now matching cache
     let od = sb.root.join(&want_dir);
-    if od.is_dir() && (c.flags & 16 != 0 || c.file.force.is_some()) {
+    if od.is_dir() && (c.flags & 16 != 0 || c.file.force.is_some()) && c.file.mistyped.as_deref() != Some("force") {
         let past = std::time::SystemTime::UNIX_EPOCH + std::time::Duration::from_secs(1_000_000_000);
         for f in ["types.ts", "commands.ts", "index.ts"] {
             if let Ok(fh) = std::fs::File::options().write(true).open(od.join(f)) {
@@ -712,12 +741,12 @@ pub fn run(tier: Tier) -> CheckResult {
     }
     // pairs / full files at valid values, and the "one invalid + others valid" combinations
     let mut multi: Vec<FileVals> = vec![
-        FileVals { project: s("alt"), output: s("file1"), validation: s("zod"), verbose: Some(true), force: Some(true) },
-        FileVals { project: s("default-dir"), output: s("file2"), validation: s("none"), verbose: Some(false), force: Some(false) },
-        FileVals { project: s("missing"), output: s("file1"), validation: s("zod"), verbose: Some(true), force: None },
-        FileVals { project: s("alt"), output: s("file1"), validation: s("yup"), verbose: None, force: Some(true) },
-        FileVals { project: None, output: s("file1"), validation: s("zod"), verbose: None, force: None },
-        FileVals { project: s("alt"), output: None, validation: None, verbose: Some(true), force: None },
+        FileVals { project: s("alt"), output: s("file1"), validation: s("zod"), verbose: Some(true), force: Some(true), mistyped: None },
+        FileVals { project: s("default-dir"), output: s("file2"), validation: s("none"), verbose: Some(false), force: Some(false), mistyped: None },
+        FileVals { project: s("missing"), output: s("file1"), validation: s("zod"), verbose: Some(true), force: None, mistyped: None },
+        FileVals { project: s("alt"), output: s("file1"), validation: s("yup"), verbose: None, force: Some(true), mistyped: None },
+        FileVals { project: None, output: s("file1"), validation: s("zod"), verbose: None, force: None, mistyped: None },
+        FileVals { project: s("alt"), output: None, validation: None, verbose: Some(true), force: None, mistyped: None },
     ];
     for src in &sources {
         if *src == Source::NoFile {
@@ -735,6 +764,22 @@ pub fn run(tier: Tier) -> CheckResult {
         for f in [&multi[0], &multi[4], &multi[5]] {
             for flags in [1u8, 2, 4, 3, 6, 7, 23] {
                 pcases.push(PrecCase { source: *src, file: f.clone(), flags, flag_defaults: true });
+            }
+        }
+        // a key of the wrong JSON type beside well-typed ones
+        for key in ["verbose", "force", "typeMappings", "excludePatterns"] {
+            for base in [&multi[4], &multi[0], &multi[1]] {
+                for flags in [0u8, 2, 4, 8] {
+                    let mut f = base.clone();
+                    f.mistyped = Some(key.to_string());
+                    if key == "verbose" {
+                        f.verbose = None;
+                    }
+                    if key == "force" {
+                        f.force = None;
+                    }
+                    pcases.push(PrecCase { source: *src, file: f, flags, flag_defaults: false });
+                }
             }
         }
         for f in multi.iter_mut() {
@@ -806,7 +851,7 @@ pub fn run(tier: Tier) -> CheckResult {
     res.coverage.set("distinct_outcomes", outcomes.len() as u64);
     res.coverage.set("exhaustive", exhaustive);
     res.coverage.set("samples", json!([docs[docs.len() / 3], docs[docs.len() - 2], pcases[pcases.len() / 2]]));
-    res.coverage.set("rule", "Part A (in process): JSON documents with 0..3 (quick) / 0..4 (thorough) extra top-level members whose values range over the i64/u64 extremes, decimals, exponents, -0.0, escaped and non-ASCII strings, nested arrays/objects (also as one-level objects), crossed with seven shapes of the plugins section (absent, empty, other plugins, existing typegen entry, typegen entry with unknown keys, null entries, typegen entry carrying every optional setting) at varying key positions, each also laid out with eight-space indentation and with 3000 trailing blanks (so that what is written back is shorter than what was there), crossed with three settings objects, each followed by writing the other two over it; save_to_tauri_config then: document minus plugins.typegen is value-equal to the original, and from_tauri_config returns the persisted settings. Part B (real binary): for each configuration source (none, the discovered tauri.conf.json locations, --config file) every single-field file (absent / valid values / invalid value) x all 32 flag subsets, plus multi-field files x 11 flag subsets, plus value flags spelled with the built-in default values against files that say otherwise; effective setting = first-defined(flag, file, default), observed through which directory receives output, which project's command is wrapped, the Generator header line, verbose output, regeneration over a matching cache; invalid effective library / missing project path => non-zero exit and an unchanged sandbox tree. Part C (real binary, `init`): -p {default, other, missing, a path through a regular file, a path with a 300-character component} x -g given or not x -v {absent, zod, none, unsupported, Zod, NONE (the names are case-sensitive)} x -o {default tauri.conf.json in the project, new standalone file, existing standalone file without / with --force, explicit tauri.conf.json elsewhere}; an unsupported library, a missing project path or an existing standalone file without --force => non-zero exit and an unchanged sandbox tree; otherwise exit 0, only the configuration file and the output directory change, the file reads back as the settings given, every other key of a tauri.conf.json survives, and the initial generation used the same settings.");
+    res.coverage.set("rule", "precedence cases also with one further key of the entry carrying a value of the wrong JSON type (verbose as a string, force as a number, typeMappings with a number, excludePatterns as a string) beside well-typed keys, which must still beat the defaults unless the run is refused with nothing written; Part A (in process): JSON documents with 0..3 (quick) / 0..4 (thorough) extra top-level members whose values range over the i64/u64 extremes, decimals, exponents, -0.0, escaped and non-ASCII strings, nested arrays/objects (also as one-level objects), crossed with seven shapes of the plugins section (absent, empty, other plugins, existing typegen entry, typegen entry with unknown keys, null entries, typegen entry carrying every optional setting) at varying key positions, each also laid out with eight-space indentation and with 3000 trailing blanks (so that what is written back is shorter than what was there), crossed with three settings objects, each followed by writing the other two over it; save_to_tauri_config then: document minus plugins.typegen is value-equal to the original, and from_tauri_config returns the persisted settings. Part B (real binary): for each configuration source (none, the discovered tauri.conf.json locations, --config file) every single-field file (absent / valid values / invalid value) x all 32 flag subsets, plus multi-field files x 11 flag subsets, plus value flags spelled with the built-in default values against files that say otherwise; effective setting = first-defined(flag, file, default), observed through which directory receives output, which project's command is wrapped, the Generator header line, verbose output, regeneration over a matching cache; invalid effective library / missing project path => non-zero exit and an unchanged sandbox tree. Part C (real binary, `init`): -p {default, other, missing, a path through a regular file, a path with a 300-character component} x -g given or not x -v {absent, zod, none, unsupported, Zod, NONE (the names are case-sensitive)} x -o {default tauri.conf.json in the project, new standalone file, existing standalone file without / with --force, explicit tauri.conf.json elsewhere}; an unsupported library, a missing project path or an existing standalone file without --force => non-zero exit and an unchanged sandbox tree; otherwise exit 0, only the configuration file and the output directory change, the file reads back as the settings given, every other key of a tauri.conf.json survives, and the initial generation used the same settings.");
     res.assumptions = vec!["integers outside the i64/u64 range are not part of the document alphabet (serde_json reads them as floats)".into()];
     res
 }
